@@ -56,8 +56,8 @@ Lemma handle_reset_facts st fs :
 Proof. unfold handle_reset. destruct (r_final st) as [f|]; [destruct (negb (f =? fs))|]; cbn; auto. Qed.
 
 (* ---------- the events queued by a schedule ---------- *)
-Definition ends_of (q : list rout) : Z :=
-  fold_right (fun e acc => (match e with RData _ true => 1 | _ => 0 end) + acc) 0 q.
+Fixpoint ends_of (q : list rout) : Z :=
+  match q with [] => 0 | e :: t => (match e with RData _ true => 1 | _ => 0 end) + ends_of t end.
 Definition bytes_all (q : list rout) : list Z := flat_map bytes_of q.
 
 Definition queued (s : net) (op : nop) (s' : net) : list rout :=
@@ -89,16 +89,16 @@ Lemma report_shape wf o s r' em rr : wf = r_finished (n_recv s) -> o <> RFinalSi
   exists q, n_queue (report wf o s r' em rr) = n_queue s ++ q /\ step_shape s (report wf o s r' em rr) q.
 Proof.
   intros Hwf Hne Hmono Hterm. unfold report, step_shape. destruct wf.
-  - exists []. cbn [n_queue n_dbytes n_ends n_recv bytes_all flat_map ends_of fold_right]. rewrite !app_nil_r.
+  - exists []. cbn [n_queue n_dbytes n_ends n_recv bytes_all flat_map ends_of]. rewrite !app_nil_r.
     split; [reflexivity|]. split; [reflexivity|]. split; [lia|]. split; [intros _; split; [apply Hmono|]; reflexivity|left; reflexivity].
   - destruct o as [|d e| |].
-    + exists []. cbn [n_queue n_dbytes n_ends n_recv bytes_all flat_map ends_of fold_right]. rewrite !app_nil_r.
+    + exists []. cbn [n_queue n_dbytes n_ends n_recv bytes_all flat_map ends_of]. rewrite !app_nil_r.
       split; [reflexivity|]. split; [reflexivity|]. split; [lia|]. split; [intros X; congruence|left; reflexivity].
-    + exists [RData d e]. cbn [n_queue n_dbytes n_ends n_recv bytes_all flat_map bytes_of ends_of fold_right]. rewrite !app_nil_r.
+    + exists [RData d e]. cbn [n_queue n_dbytes n_ends n_recv bytes_all flat_map bytes_of ends_of]. rewrite !app_nil_r.
       split; [reflexivity|]. split; [reflexivity|]. split; [destruct e; cbn [b2z]; lia|].
       split; [intros X; congruence|right; eexists; split; [reflexivity|exact Hterm]].
     + contradiction Hne. reflexivity.
-    + exists [RReset]. cbn [n_queue n_dbytes n_ends n_recv bytes_all flat_map bytes_of ends_of fold_right]. rewrite !app_nil_r.
+    + exists [RReset]. cbn [n_queue n_dbytes n_ends n_recv bytes_all flat_map bytes_of ends_of]. rewrite !app_nil_r.
       split; [reflexivity|]. split; [reflexivity|]. split; [lia|].
       split; [intros X; congruence|right; eexists; split; [reflexivity|exact Hterm]].
 Qed.
@@ -152,7 +152,7 @@ Proof. cbn [net_step]. destruct (n_queue s) as [|e q]; [discriminate|]. intros H
 Lemma bytes_all_app a b : bytes_all (a ++ b) = bytes_all a ++ bytes_all b.
 Proof. unfold bytes_all. apply flat_map_app. Qed.
 Lemma ends_of_app a b : ends_of (a ++ b) = ends_of a + ends_of b.
-Proof. induction a as [|e t IH]; cbn [app ends_of fold_right] in *; [lia|]. unfold ends_of in IH. rewrite IH. lia. Qed.
+Proof. induction a as [|e t IH]; cbn [app ends_of]; [lia|]. rewrite IH. lia. Qed.
 
 (* for EVERY schedule (reset steps included): the ghost fields are exactly the events queued; once the receive half
    is finished nothing more is queued; the terminal event (end marker or StreamReset) is the last one -- so the
@@ -182,10 +182,10 @@ Qed.
 
 Lemma term_last_count ev : term_last ev -> ends_of ev <= 1 /\ (Zlen (filter is_term ev) <= 1).
 Proof.
-  induction ev as [|e t IH]; cbn [term_last ends_of fold_right filter]; [unfold Zlen; cbn; lia|].
-  intros (H1 & H2). destruct (IH H2) as (I1 & I2). unfold ends_of in I1.
+  induction ev as [|e t IH]; cbn [term_last ends_of filter]; [unfold Zlen; cbn; lia|].
+  intros (H1 & H2). destruct (IH H2) as (I1 & I2).
   destruct (is_term e) eqn:Et.
-  - rewrite (H1 eq_refl) in *. cbn [fold_right filter]. unfold Zlen. cbn [length]. destruct e as [|d [|]| |]; lia.
+  - rewrite (H1 eq_refl) in *. cbn [ends_of filter]. unfold Zlen. cbn [length]. destruct e as [|d [|]| |]; lia.
   - destruct e as [|d [|]| |]; try discriminate; split; try lia; exact I2.
 Qed.
 
@@ -221,10 +221,10 @@ Lemma hs_get st g ms mo : SInv st g -> s_reset st = None -> HS st ->
   (forall off d fin, fst (get_frame st ms mo) = SFrame off d fin ->
      off + Zlen d <= s_highest (snd (get_frame st ms mo)) /\ (fin = true -> s_highest (snd (get_frame st ms mo)) = s_stop st)).
 Proof.
-  intros V Lr H. pose proof H as [H1 H2]. unfold get_frame. rewrite Lr.
+  intros V Lr H. unfold get_frame. rewrite Lr.
   pose proof (v_start _ _ V) as Hst.
   destruct (s_pending st) as [|[start rstop] rest] eqn:EP.
-  - destruct (s_pending_eof st) eqn:EE.
+  - destruct H as [H1 H2]. destruct (s_pending_eof st) eqn:EE.
     + cbn [fst snd s_highest s_stop s_pending].
       split; [constructor; cbn [s_highest s_stop s_pending]; [exact H1|rewrite EP in H2; exact H2]|].
       split; [lia|]. split; [auto|]. split; [reflexivity|].
@@ -236,9 +236,10 @@ Proof.
         assert (s_stop st - 1 < s_highest st); [|lia]. apply H2; [lia|]. rewrite EP. cbn. tauto. }
       split; [lia|intros _; lia].
     + unfold set_empty. cbn [fst snd s_highest s_stop s_pending].
-      split; [constructor; cbn [s_highest s_stop s_pending]; [exact H1|rewrite EP in H2; exact H2]|].
+      split; [constructor; cbn [s_highest s_stop s_pending]; [exact H1|exact H2]|].
       split; [lia|]. split; [auto|]. split; [reflexivity|]. intros off d fin E. discriminate.
-  - pose proof (v_pwf _ _ V) as W. rewrite EP in W. cbn [wf_from] in W. destruct W as (W1 & W2 & W3).
+  - pose proof H as [H1 H2].
+    pose proof (v_pwf _ _ V) as W. rewrite EP in W. cbn [wf_from] in W. destruct W as (W1 & W2 & W3).
     assert (Hrs : rstop <= s_stop st).
     { pose proof (v_pmax _ _ V (rstop - 1)) as P. rewrite EP in P. cbn [mem] in P.
       assert (Hq : start <= rstop - 1 < rstop) by lia. specialize (P (or_introl Hq)). lia. }
@@ -254,7 +255,7 @@ Proof.
       destruct (subtract_spec (s_pending st) (s_start st - 1) start stop Wp Hlt) as (_ & M').
       split; [|split; [|split; [|split]]].
       * constructor; cbn [s_highest s_stop s_pending]; [destruct (stop >? s_highest st) eqn:E; lia|].
-        intros o Ho Hn. destruct (Z_lt_dec o (s_highest st)) as [|Hge]; [destruct (stop >? s_highest st); lia|].
+        intros o Ho Hn. destruct (Z_lt_dec o (s_highest st)) as [|Hge]; [destruct (stop >? s_highest st) eqn:E; lia|].
         assert (Hm : mem o (s_pending st)).
         { destruct (contains o (s_pending st)) eqn:Ec; [apply contains_mem; exact Ec|exfalso]. apply Hge, H2; [lia|].
           intros Hm. apply contains_mem in Hm. congruence. }
@@ -313,11 +314,11 @@ Proof.
   - intros f' Hf' Hfin. destruct (E4 f' Hf') as (f & Hf & X1 & X2 & X3). rewrite X3 in Hfin. exact (A3 f Hf Hfin).
 Qed.
 
-Lemma set_nth_same_frames l i f f' : nthE l i = Some f ->
-  ef_off f' = ef_off f -> ef_data f' = ef_data f -> ef_fin f' = ef_fin f ->
-  forall x', In x' (set_nth i f' l) -> exists x, In x l /\ ef_off x' = ef_off x /\ ef_data x' = ef_data x /\ ef_fin x' = ef_fin x.
+Lemma set_nth_same_frames l i f d o : nthE l i = Some f ->
+  forall x', In x' (set_nth i (mkEF (ef_off f) (ef_data f) (ef_fin f) d o) l) ->
+  exists x, In x l /\ ef_off x' = ef_off x /\ ef_data x' = ef_data x /\ ef_fin x' = ef_fin x.
 Proof.
-  intros E X1 X2 X3 x' Hx'. destruct (in_set_nth _ _ _ _ _ E Hx') as [->|Hx].
+  intros E x' Hx'. destruct (in_set_nth _ _ _ _ _ E Hx') as [->|Hx].
   - exists f. split; [exact (nthE_In _ _ _ E)|auto].
   - exists x'. auto.
 Qed.
@@ -374,9 +375,9 @@ Proof.
       match type of Hs' with _ = report ?a ?b ?c ?d ?e ?g => destruct (report_fields a b c d e g) as (R1 & R2 & R3 & R4) end.
       rewrite <- Hs' in R1, R2, R3, R4.
       constructor; rewrite ?R1, ?R2, ?R3, ?R4; try assumption.
-      * intros x' Hx'. destruct (set_nth_same_frames _ _ _ _ Ei eq_refl eq_refl eq_refl x' Hx') as (x & Hx & X1 & X2 & X3).
+      * intros x' Hx'. destruct (set_nth_same_frames _ _ _ _ _ Ei x' Hx') as (x & Hx & X1 & X2 & X3).
         rewrite X1, X2. exact (A2 x Hx).
-      * intros x' Hx' Hfin. destruct (set_nth_same_frames _ _ _ _ Ei eq_refl eq_refl eq_refl x' Hx') as (x & Hx & X1 & X2 & X3).
+      * intros x' Hx' Hfin. destruct (set_nth_same_frames _ _ _ _ _ Ei x' Hx') as (x & Hx & X1 & X2 & X3).
         rewrite X3 in Hfin. exact (A3 x Hx Hfin).
       * rewrite F2. destruct (ef_fin f) eqn:Ef; [intros _; exact (A3 f (nthE_In _ _ _ Ei) Ef)|exact A4].
   - (* outcome *)
@@ -393,9 +394,9 @@ Proof.
     destruct (on_data_delivery (n_send s) acked (ef_off f) (ef_off f + Zlen (ef_data f)) (ef_fin f)) as [so st']. cbn [snd] in *.
     inversion H; subst o s'. clear H.
     constructor; cbn [n_send n_written n_emitted n_recv]; rewrite ?K1; try assumption.
-    + intros x' Hx'. destruct (set_nth_same_frames _ _ _ _ Ei eq_refl eq_refl eq_refl x' Hx') as (x & Hx & X1 & X2 & X3).
+    + intros x' Hx'. destruct (set_nth_same_frames _ _ _ _ _ Ei x' Hx') as (x & Hx & X1 & X2 & X3).
       rewrite X1, X2. exact (A2 x Hx).
-    + intros x' Hx' Hfin. destruct (set_nth_same_frames _ _ _ _ Ei eq_refl eq_refl eq_refl x' Hx') as (x & Hx & X1 & X2 & X3).
+    + intros x' Hx' Hfin. destruct (set_nth_same_frames _ _ _ _ _ Ei x' Hx') as (x & Hx & X1 & X2 & X3).
       rewrite X3 in Hfin. exact (A3 x Hx Hfin).
   - destruct (n_queue s); [discriminate|]. inversion H; subst. constructor; assumption.
   - inversion H; subst. constructor; assumption.
@@ -562,7 +563,7 @@ Proof.
     { rewrite F2. destruct (ef_fin f) eqn:Efin; [left|right; reflexivity].
       destruct (A3 f Hf) as (_ & _ & _ & C4). destruct (C4 Efin) as (_ & C5). rewrite (A5 f Hf Efin). f_equal. exact C5. }
     assert (Hem : forall f', In f' em -> exists x, In x (n_emitted s) /\ ef_off f' = ef_off x /\ ef_data f' = ef_data x /\ ef_fin f' = ef_fin x)
-      by (apply (set_nth_same_frames _ _ f); auto).
+      by (apply (set_nth_same_frames _ _ f _ _ Ei)).
     assert (Heof : eof s' <-> eof s) by (unfold eof; rewrite R1; tauto).
     constructor; rewrite ?R1, ?R2, ?R3, ?R4, ?R5, ?R6; try assumption; try congruence.
     + intros f' Hf'. destruct (Hem f' Hf') as (x & Hx & X1 & X2 & X3). rewrite X1, X2, X3.
@@ -571,7 +572,7 @@ Proof.
     + intros f' Hf' Hfin. destruct (Hem f' Hf') as (x & Hx & X1 & X2 & X3). rewrite X3 in Hfin. exact (A5 x Hx Hfin).
     + intros f0 Hf0. destruct Hfinal' as [Y|Y]; [congruence|]. apply A7. congruence.
     + rewrite Hs'. destruct (n_rreset s).
-      * destruct A8 as (G1 & G2 & G3). apply frozen_quiet; [repeat split; assumption|exact (F3 G1)|].
+      * destruct A8 as (G1 & G2 & G3). apply frozen_quiet; [exact (conj G1 (conj G2 G3))|exact (F3 G1)|].
         destruct Hfinal' as [Y|Y]; congruence.
       * exact (recvok_deliver s f A8 (A3 f Hf) ro r' EH em false).
   - (* outcome: the sender ignores it after reset() *)
@@ -581,7 +582,7 @@ Proof.
     { unfold on_data_delivery. rewrite ER. destruct (ef_fin f && _); reflexivity. }
     destruct (on_data_delivery (n_send s) acked (ef_off f) (ef_off f + Zlen (ef_data f)) (ef_fin f)) as [so st']. cbn [snd] in Est. subst st'.
     inversion H; subst o s'. apply (xinv_same s); cbn [n_send n_written n_recv n_rreset n_dbytes n_ends n_resets n_emitted]; auto.
-    apply (set_nth_same_frames _ _ f); auto.
+    apply (set_nth_same_frames _ _ f _ _ Ei).
   - (* reset again: nothing changes *)
     unfold reset in H. rewrite ER in H. inversion H; subst. unfold with_send.
     apply (xinv_same s); cbn [n_send n_written n_recv n_rreset n_dbytes n_ends n_resets n_emitted]; auto. apply same_frames_refl.
@@ -611,13 +612,12 @@ Proof.
     assert (HP : Pfx s) by (destruct (n_rreset s); [exact (proj2 (proj2 A8))|exact (recvok_pfx s A8)]).
     constructor; rewrite ?R1, ?R2, ?R3, ?R4, ?R5, ?R6; try assumption; try congruence.
     + intros f Hf. eapply consistent_eof; [|exact (A3 f Hf)]. unfold eof. rewrite R1. tauto.
-    + intros f0 Hf0. congruence.
     + unfold Frozen, Pfx, eof. rewrite R1, R2, R4, R7, R8. split; [exact H3|]. split; [congruence|exact HP].
   - (* outcome of RESET_STREAM *)
     destruct (n_resets s) eqn:En; [discriminate|]. unfold on_reset_delivery in H.
     destruct acked; inversion H; subst o s';
       (apply (xinv_same s); cbn [n_send n_written n_recv n_rreset n_dbytes n_ends n_resets n_emitted s_reset s_highest s_fin]; auto;
-       [rewrite En; auto|apply same_frames_refl]).
+       try apply same_frames_refl; try (rewrite En; auto)).
   - destruct (n_queue s); [discriminate|]. inversion H; subst.
     apply (xinv_same s); cbn [n_send n_written n_recv n_rreset n_dbytes n_ends n_resets n_emitted]; auto. apply same_frames_refl.
   - inversion H; subst. exact X.
@@ -632,7 +632,7 @@ Proof.
   induction 1 as [|s op o s' R IH H]; [left; exact nreach_init|].
   destruct IH as [N|X]; [|right; exact (xinv_step s op o s' X H)].
   pose proof (nreach_inv _ N) as I. destruct (ni_noreset _ I) as (N1 & N2 & _).
-  destruct op; try (left; eapply nreach_step; [exact N|exact Logic.I|exact H]).
+  destruct op as [d fin|ms mo|i|i acked|code| |j|acked| |]; try (left; eapply nreach_step; [exact N| |exact H]; exact Logic.I).
   - right. exact (xinv_establish s code o s' N H).
   - cbn [net_step] in H. rewrite N1 in H. discriminate.
   - cbn [net_step] in H. rewrite N2, nthZo_nil in H. discriminate.
